@@ -36,6 +36,8 @@ def unsupported_pool(k):
         f'{f} = -({g} + 1);', f'{f} = (int)foo{k}({g});', f'{f} = - -{g};', f'{f} = !({g}++);', f'-({g}++);',
         f'{f} ? ({g} = 1) : ({g} = 2);', f'{f} ? {g}++ : {g}--;', f'{f}[0];', f'(int){f}[{g}];', f'foo{k}({f}), {f}[0] = {g};',
         f'L{k}x: {f} = foo{k}({g});', f'{f} = &{g};', f'{f} = sizeof({g}[0]);',
+        # an unsupported unary operator below ! / sizeof / a cast
+        f'{f} = !(*{g});', f'{f} = !(&{g});', f'{f} = sizeof(*{g});', f'{f} = !(~{g});', f'sizeof(*{f});', f'{f} = !(int)(~{g});', f'{f} = ~{g};', f'{f} = -(~{g});',
     ]
 
 
